@@ -139,6 +139,7 @@ type Core struct {
 	tok           tokState
 	lastRefundSig string
 	lastRefusal   map[int64]string
+	atkName       string
 	rlSig         string
 	govBlock      bool
 }
